@@ -174,6 +174,8 @@ def run_shard(shard: dict, ctx, res, only=None) -> None:
     _CFG = dict(LONG) if shard.get("cfg") == "long" else {"P0": P0, "nsamples": 10000}
     shape = tuple(shard["cube"])
     ops = _ops()
+    if shard.get("centre"):
+        return _centre(shape, shard, res, only)
     if only is not None:
         fd, orig = _fresh(shape)
         hist = [tuple(h) for h in only]
